@@ -68,6 +68,7 @@ type PathResult struct {
 	Steps     int
 	Funcs     map[*ssa.Function]bool
 	Sample    map[string]uint64
+	Soft      []*Violation
 }
 
 // Machine is one worker's interpreter state.
@@ -120,6 +121,8 @@ type Machine struct {
 	mutexes  map[*Obj]*mutexState
 	subKeys  map[string]*Obj
 	syncMaps map[string]*MapV
+	builders map[string]*StrV
+	softViol []*Violation // known findings met on this path (the path continues)
 	spec     bool // speculative (if-conversion) evaluation in progress
 	noIfConv bool
 	ifConvs  int
@@ -389,6 +392,13 @@ func (m *Machine) check(c *Term, kind, label string) {
 		if v {
 			return
 		}
+		if m.concrete == nil && m.P.KnownLabels[m.harness+"|"+label] {
+			// known finding that fails on every input of this path: record it, end the path quietly
+			if m.sol.Check() == Sat {
+				m.softViol = append(m.softViol, m.buildViolation(kind, label, ""))
+			}
+			m.endPath("assume", "known finding "+label)
+		}
 		m.violation(kind, label, "")
 	}
 	if m.concrete != nil {
@@ -401,13 +411,36 @@ func (m *Machine) check(c *Term, kind, label string) {
 		d := m.prefix[m.cursor]
 		m.cursor++
 		m.trace = append(m.trace, d)
-		m.setLit(c, true)
+		if d.Forced {
+			m.setLit(c, true)
+		} else {
+			m.assertPC(c) // continued past a known finding: the assertion was assumed
+		}
 		return
 	}
 	nc := m.tt.Not(c)
 	m.sol.Push(nc)
 	r := m.sol.Check()
 	if r == Sat {
+		if m.P.KnownLabels[m.harness+"|"+label] {
+			// a listed known finding: record it, then go on with the inputs on which
+			// the assertion holds so that later assertions are still checked
+			v := m.buildViolation(kind, label, "")
+			m.softViol = append(m.softViol, v)
+			m.sol.Pop(1)
+			m.sol.Push(c)
+			m.pcDepth++
+			r2 := m.sol.Check()
+			if r2 == Unsat {
+				m.endPath("assume", "known finding "+label+" holds on no input of this path")
+			}
+			if r2 == Unknown {
+				m.noteUnknown("assert " + label)
+			}
+			m.setLit(c, true)
+			m.trace = append(m.trace, Dec{C: 1})
+			return
+		}
 		m.pcDepth++ // keep the negation asserted for model extraction; the path ends here
 		m.violationWithModel(kind, label, "")
 	}
@@ -435,6 +468,14 @@ var curViolation = map[*Machine]*Violation{}
 var curViolationMu sync.Mutex
 
 func (m *Machine) violationWithModel(kind, label, detail string) {
+	v := m.buildViolation(kind, label, detail)
+	curViolationMu.Lock()
+	curViolation[m] = v
+	curViolationMu.Unlock()
+	panic(pathEnd{Kind: "violation", Msg: kind + ":" + label + ":" + detail})
+}
+
+func (m *Machine) buildViolation(kind, label, detail string) *Violation {
 	var vars []*Term
 	for _, in := range m.inputs {
 		vars = append(vars, in.T)
@@ -455,10 +496,7 @@ func (m *Machine) violationWithModel(kind, label, detail string) {
 		}
 	}
 	v.Trace = append([]string(nil), m.traceLog...)
-	curViolationMu.Lock()
-	curViolation[m] = v
-	curViolationMu.Unlock()
-	panic(pathEnd{Kind: "violation", Msg: kind + ":" + label + ":" + detail})
+	return v
 }
 
 func (m *Machine) evalConcrete(c *Term) uint64 {
@@ -518,6 +556,7 @@ func (m *Machine) resetPath() {
 	m.cur = nil
 	m.aborting = false
 	m.inconc = ""
+	m.softViol = nil
 	m.spec = false
 	m.preempt = 0
 	m.quiesce = nil
@@ -526,6 +565,7 @@ func (m *Machine) resetPath() {
 	m.mutexes = map[*Obj]*mutexState{}
 	m.subKeys = map[string]*Obj{}
 	m.syncMaps = map[string]*MapV{}
+	m.builders = map[string]*StrV{}
 	m.raceOn = false
 	if m.funcs == nil {
 		m.funcs = map[*ssa.Function]bool{}
@@ -542,6 +582,7 @@ func (m *Machine) RunPath(prefix []Dec) *PathResult {
 		res.Covers = append(res.Covers, c)
 	}
 	sort.Strings(res.Covers)
+	res.Soft = m.softViol
 	if end.Kind == "violation" {
 		curViolationMu.Lock()
 		res.Violation = curViolation[m]
